@@ -178,6 +178,33 @@ End Dense.
 Arguments mkState {F}.
 Arguments dirty {F}. Arguments inF {F}. Arguments outF {F}. Arguments work {F}.
 
+(* ------------------------------------------------------------------ the priority order of nodeHeap *)
+(* graph.Postorder (DFS from every node in ascending order, successors in Out() order; the onStack test of
+   the code is subsumed by the visited test) and nodeHeap's priority = position in the reverse postorder *)
+Section HeapOrder.
+  Variable succs : list (list nat).
+  Fixpoint po_visit (fuel : nat) (u : nat) (acc : list nat * list nat) : list nat * list nat :=
+    match fuel with
+    | 0 => acc
+    | S k =>
+      if memb u (fst acc) then acc
+      else let acc1 := fold_left (fun a v => po_visit k v a) (nth u succs []) (u :: fst acc, snd acc) in
+           (fst acc1, snd acc1 ++ [u])
+    end.
+  Definition postorder : list nat :=
+    snd (fold_left (fun a u => po_visit (S (length succs)) u a) (seq 0 (length succs)) ([], [])).
+  Definition rpo : list nat := rev postorder.
+  Fixpoint pos_in (x : nat) (l : list nat) (k : nat) : nat :=
+    match l with [] => k | y :: t => if Nat.eqb x y then k else pos_in x t (S k) end.
+  Definition prio (b : nat) : nat := pos_in b rpo 0.
+  (* dequeue: the queued node of least priority *)
+  Definition pick_heap (w : list nat) : nat :=
+    match w with
+    | [] => 0
+    | x :: t => fold_left (fun best y => if Nat.ltb (prio y) (prio best) then y else best) t x
+    end.
+End HeapOrder.
+
 (* ------------------------------------------------------------------ sparse solver *)
 Section Sparse.
   Context {F : Type} {L : Semilattice F}.
